@@ -1,6 +1,6 @@
 SPECIFICATION Spec
 CONSTANTS
-  P = 29
+  P = 31
   Strength = 2
 INVARIANTS CaseInstallable SpecCoherent
 CHECK_DEADLOCK FALSE
